@@ -58,6 +58,38 @@ NOTES = {
     "C18b-3": "first missed: directory names with & < > in template parameters",
     "C19b-2": "first missed: store with missing data objects opened read-only",
     "C19b-3": "first missed: cluster built from configuration dictionaries after a writable cluster on the same path in the same process",
+    # round 3 (told what rounds 1 and 2 had tried)
+    "C01c-2": "first missed: explicit root left untouched and called with fresh arguments, callers called first (the callee is reached from inside a running body)",
+    "C01c-3": "first missed: defaults of functions under a functools.wraps decorator (helpers and memento functions)",
+    "C01c-4": "first missed: every rendered function has a local named `a` (a prefix of `aux`)",
+    "C02c-1": "an override-key change: caught by C05 and C07 (C02 does not use key overrides)",
+    "C02c-2": "the C15b-3 change again: caught by C15 and C05",
+    "C02c-3": "first missed: exception messages with `{k} {0}`, `100% }{` and JSON text",
+    "C03c-1": "first missed: dict variable with keys of two types built from a set",
+    "C03c-2": "first missed: hand-written program spread over two packages",
+    "C04c-2": "a context-inheritance change: caught by C16 (C04 calls are top-level)",
+    "C04c-3": "first missed: functions defined, used and defined again with re-ordered / renamed parameters",
+    "C06c-1": "first missed: data frames / series of > 100 uneven rows about as large as the budget (sampled size estimate)",
+    "C07c-1": "needs an I/O fault during a write (outside C07's fault-free histories): caught by C08",
+    "C07c-3": "needs an I/O fault while *reading* a link during memoize; results stay right (C08 silent), a second object appears (C07's histories are fault-free): not reached",
+    "C08c-1": "first missed: the call under kernel file-size limits (RLIMIT_FSIZE: real short writes)",
+    "C09c-1": "first missed: filesystem backend with line-level yields in storage_filesystem.py, two functions with equal arguments, every call repeated afterwards",
+    "C09c-3": "first missed: line-level yields in storage_memory.py, every call repeated afterwards",
+    "C12c-2": "first missed: evolution removing the middle package of a three-component module path",
+    "C13c-1": "first missed: fn_reference() must carry the version version() reports; clone and original asked in turn",
+    "C13c-2": "first missed: undefined names defined with the value None",
+    "C14c-1": "first missed: hidden callee whose name is a proper prefix of a dependency's name",
+    "C14c-3": "first missed: equal function names in two modules",
+    "C15c-3": "first missed: a batch of 1011 elements",
+    "C16c-3": "first missed: force_local() as a call modifier of generated programs; prevention at an inner edge over a force_local call",
+    "C17c-1": "first missed: entries added to the wrapped dictionary after list_keys()",
+    "C17c-2": "first missed: all levels published under one key override and read back in one process",
+    "C17c-3": "first missed: values that are partitions themselves",
+    "C18c-1": "first missed: repository map key different from the cluster's own name",
+    "C18c-2": "first missed: one configuration object used twice, first with explicit path arguments",
+    "C18c-3": "first missed: the same template file rendered before with other parameter values",
+    "C19c-2": "first missed: chains of call modifiers on the null runner",
+    "C19c-3": "first missed: an old leftover in the staging directory; tree snapshot taken before the read-only backend is constructed",
     "C10b-5": "needs two threads (outside C10's sequential quantifier); now reached by the added concurrent sub-call scenario",
 }
 rows = []
